@@ -15,7 +15,7 @@ use serde_json::{json, Value};
 
 use crate::{core::*, sched};
 
-fn parse_trace(text: &str) -> Trace {
+pub fn parse_trace(text: &str) -> Trace {
     let mut t = Trace::default();
     for l in text.lines() {
         let f: Vec<&str> = l.split_whitespace().collect();
